@@ -332,6 +332,8 @@ class BackupNode(Entity):
         self._replications_applied = 0
         self._backup_reads = 0
         self._last_applied_seq = 0
+        # Newest accepted write per key: key -> (seq, value)
+        self._latest: dict[str, tuple[int, object]] = {}
 
     def downstream_entities(self) -> list[Entity]:
         return [self._primary]
@@ -375,11 +377,20 @@ class BackupNode(Entity):
         seq = metadata.get("seq", 0)
         ack_future: SimFuture | None = metadata.get("ack_future")
 
+        # Replication messages for one key can overtake each other: never let an
+        # older write replace a newer one. A superseded write re-applies the newest
+        # accepted value instead, so it is still only acknowledged once applied.
+        latest = self._latest.get(key)
+        if latest is None or seq >= latest[0]:
+            self._latest[key] = (seq, value)
+        else:
+            value = latest[1]
+
         # Apply locally
         yield from self._store.put(key, value)
 
         self._replications_applied += 1
-        self._last_applied_seq = seq
+        self._last_applied_seq = max(self._last_applied_seq, seq)
 
         # Resolve ack future if present (for SEMI_SYNC/SYNC)
         if ack_future is not None:
